@@ -1185,6 +1185,7 @@ func (w *world) sources(r *rand.Rand, b *block, keyType byte, content []byte) []
 	r.Read(g)
 	out = append(out, fixed("garbage", okResp(g)))
 	out = append(out, fixed("truncated", okResp(b.hwp[:r.Intn(len(b.hwp))])))
+	out = append(out, fixed("always-this", okResp(b.hwp))) // this block's genuine header, whatever key is asked
 	out = append(out, fixed("rpcerr", resp{err: true}))
 	out = append(out, fixed("badhex", resp{hex: "0xzz"}))
 	out = append(out, fixed("emptyhex", resp{hex: "0x"}))
@@ -1249,6 +1250,13 @@ func keyMutations(r *rand.Rand, key []byte) []mutation {
 	add("k-trunc1", key[:1])
 	add("k-ext", append(clone(key), byte(r.Intn(256))))
 	add("k-ext", append(clone(key), make([]byte, 1+r.Intn(32))...))
+	// bytes slipped in between the selector and the payload: the payload still ENDS with the genuine hash
+	{
+		junk := make([]byte, 1+r.Intn(6))
+		r.Read(junk)
+		add("k-prefix", append(append([]byte{key[0]}, junk...), key[1:]...))
+		add("k-prefix", append(append([]byte{key[0]}, 0), key[1:]...))
+	}
 	for _, s := range []byte{0, 1, 2, 3, 4, 5, 6, 255} {
 		if s != key[0] {
 			k := clone(key)
@@ -1497,7 +1505,8 @@ func runOracle(o *Out, r *rand.Rand, rg *rig, thorough bool) {
 		k := clone(b.hash)
 		k[r.Intn(32)] ^= 1 << uint(r.Intn(8))
 		reqs = append(reqs, mutation{"hash-bit", k}, mutation{"hash-short", b.hash[:31]}, mutation{"hash-long", append(clone(b.hash), 0)},
-			mutation{"hash-random", randHash(r).Bytes()}, mutation{"hash-empty", []byte{}})
+			mutation{"hash-random", randHash(r).Bytes()}, mutation{"hash-empty", []byte{}},
+			mutation{"hash-prefixed", append([]byte{byte(1 + r.Intn(255))}, b.hash...)}, mutation{"hash-prefixed", append(make([]byte, 1+r.Intn(4)), b.hash...)})
 		for _, rq := range reqs {
 			for _, s := range w.sources(r, b, byte(ht.BlockBodyType), b.body) {
 				rg.far.set(nil, s.fn)
